@@ -520,6 +520,9 @@ def run_check(prop_id, tier, seed):
     log("%s %s: states=%d transitions=%d edges=%d/%d paths=%d random=%d validated=%d drift=%s violations=%d (%.1fs)" % (
         prop_id, tier, ev["states"], ev["transitions"], ev["edges_covered"], ev["edges"], ev["paths_replayed"],
         ev["random_runs"], ev["traces_validated_against_impl"], ev["drift"], len(violations), time.time() - t0))
+    if not violations and not os.environ.get("VERIF_KEEP"):
+        # scratch (edge tours, recorded traces) is only worth keeping when something has to be looked at
+        shutil.rmtree(work, ignore_errors=True)
     return 1 if violations else 0
 
 
